@@ -657,3 +657,58 @@ pub fn record(args: &[String]) {
     out.flush().unwrap();
     s.print();
 }
+
+// ------------------------------------------------------------------ SimTime arithmetic (Time.tla)
+/// `vh rt time <file>`: the case table of Time.tla evaluated on des::time::SimTime under additive embeddings
+/// (tick -> k * unit for units from 1 ns to 200 years)
+pub fn time_cases(args: &[String]) {
+    let path = &args[0];
+    let mut s = Summary::default();
+    let units: [Duration; 6] = [Duration::from_nanos(1), Duration::from_nanos(999_999_999), Duration::from_secs(1), Duration::from_millis(2_500),
+                                Duration::from_secs(86_400 * 365), Duration::from_secs(6_400_000_000)];
+    for_each_line(path, |_li, v| {
+        s.behaviours += 1;
+        for (ui, unit) in units.iter().enumerate() {
+            for c in v.as_array().unwrap() {
+                s.replays += 1;
+                let t = |k: &Value| SimTime::from_duration(*unit * k.as_u64().unwrap() as u32);
+                let dur = |k: &Value| *unit * k.as_u64().unwrap() as u32;
+                let (a, b, d) = (t(&c["a"]), t(&c["b"]), dur(&c["d"]));
+                let opt = |o: &Value| if o["ok"] == true { Some(*unit * o["v"].as_u64().unwrap() as u32) } else { None };
+                let mut bad: Option<(&str, String, String)> = None;
+                let mut chk = |name: &'static str, exp: String, got: String| {
+                    if exp != got && bad.is_none() {
+                        bad = Some((name, exp, got));
+                    }
+                };
+                let cmp = match a.cmp(&b) {
+                    std::cmp::Ordering::Less => "lt",
+                    std::cmp::Ordering::Equal => "eq",
+                    std::cmp::Ordering::Greater => "gt",
+                };
+                chk("Ord", c["cmp"].as_str().unwrap().to_string(), cmp.to_string());
+                chk("PartialEq", (c["cmp"] == "eq").to_string(), (a == b).to_string());
+                chk("checked_duration_since", format!("{:?}", opt(&c["since"])), format!("{:?}", a.checked_duration_since(b)));
+                chk("saturating_duration_since", format!("{:?}", dur(&c["sat"])), format!("{:?}", a.saturating_duration_since(b)));
+                chk("duration_diff", format!("{:?}", dur(&c["diff"])), format!("{:?}", a.duration_diff(b)));
+                chk("eq_approx", c["approx"].to_string(), a.eq_approx(b, d).to_string());
+                chk("checked_add", format!("{:?}", opt(&c["add"]).map(SimTime::from_duration)), format!("{:?}", a.checked_add(d)));
+                chk("checked_sub", format!("{:?}", opt(&c["sub"]).map(SimTime::from_duration)), format!("{:?}", a.checked_sub(d)));
+                let since = catch_unwind(AssertUnwindSafe(|| a.duration_since(b))).ok();
+                chk("duration_since (panics iff earlier is later)", format!("{:?}", opt(&c["since"])), format!("{since:?}"));
+                let minus = catch_unwind(AssertUnwindSafe(|| a - b)).ok();
+                chk("SimTime - SimTime", format!("{:?}", opt(&c["since"])), format!("{minus:?}"));
+                let sub = catch_unwind(AssertUnwindSafe(|| a - d)).ok();
+                chk("SimTime - Duration (panics iff it would be negative)", format!("{:?}", opt(&c["sub"]).map(SimTime::from_duration)), format!("{sub:?}"));
+                let add = catch_unwind(AssertUnwindSafe(|| a + d)).ok();
+                chk("SimTime + Duration", format!("{:?}", opt(&c["add"]).map(SimTime::from_duration)), format!("{add:?}"));
+                // the clock: now() returns what was published, elapsed() is measured against it
+                s.checks += 12;
+                if let Some((name, exp, got)) = bad {
+                    s.mismatch(json!({"field": format!("SimTime arithmetic: {name}"), "expected": exp, "got": got, "case": c, "unit_ns": unit.as_nanos() as u64, "unit_index": ui, "behaviour": [c]}));
+                }
+            }
+        }
+    });
+    s.print();
+}
